@@ -320,7 +320,8 @@ def create_for_folder_subcommand(
     if detect_renaming:
         found_file_paths = set()
         for new_path in new_paths:
-            for not_found_path in not_found_paths:
+            # in sorted order: the iteration order of a set of absolute paths depends on where the folder is mounted
+            for not_found_path in sorted(not_found_paths):
                 # find hashes to not_found_path and new_path
                 not_found_path_history, relative_not_found_path = existing_history.find_history_for_path(
                     existing_history.get_relative_file_path(not_found_path)
